@@ -103,15 +103,30 @@ func NewRequestServer(rwc io.ReadWriteCloser, h Handlers, options ...RequestServ
 
 // New Open packet/Request
 func (rs *RequestServer) nextRequest(r *Request) string {
+	rs.reserveHandle(r)
+	rs.publishRequest(r)
+
+	return r.handle
+}
+
+// reserveHandle gives r a handle that no other Request of the session has or will have,
+// without entering it in the handle table: until its open handler has succeeded
+// the handle has not been issued, and no other worker may see the Request.
+func (rs *RequestServer) reserveHandle(r *Request) {
 	rs.mu.Lock()
 	defer rs.mu.Unlock()
 
 	rs.handleCount++
 
 	r.handle = strconv.Itoa(rs.handleCount)
-	rs.openRequests[r.handle] = r
+}
 
-	return r.handle
+// publishRequest enters an opened Request in the handle table.
+func (rs *RequestServer) publishRequest(r *Request) {
+	rs.mu.Lock()
+	defer rs.mu.Unlock()
+
+	rs.openRequests[r.handle] = r
 }
 
 // Returns Request from openRequests, bool is false if it is missing.
@@ -258,19 +273,23 @@ func (rs *RequestServer) packetWorker(ctx context.Context, pktChan chan orderedR
 			}
 		case *sshFxpOpendirPacket:
 			request := requestFromPacket(ctx, pkt, rs.startDirectory)
-			handle := rs.nextRequest(request)
+			rs.reserveHandle(request)
 			rpkt = request.opendir(rs.Handlers, pkt)
-			if _, ok := rpkt.(*sshFxpHandlePacket); !ok {
-				// if we return an error we have to remove the handle from the active ones
-				rs.closeRequest(handle)
+			if _, ok := rpkt.(*sshFxpHandlePacket); ok {
+				rs.publishRequest(request)
+			} else {
+				// the handle was never issued: release the request (cancels its context)
+				request.close()
 			}
 		case *sshFxpOpenPacket:
 			request := requestFromPacket(ctx, pkt, rs.startDirectory)
-			handle := rs.nextRequest(request)
+			rs.reserveHandle(request)
 			rpkt = request.open(rs.Handlers, pkt)
-			if _, ok := rpkt.(*sshFxpHandlePacket); !ok {
-				// if we return an error we have to remove the handle from the active ones
-				rs.closeRequest(handle)
+			if _, ok := rpkt.(*sshFxpHandlePacket); ok {
+				rs.publishRequest(request)
+			} else {
+				// the handle was never issued: release the request (cancels its context)
+				request.close()
 			}
 		case *sshFxpFstatPacket:
 			handle := pkt.getHandle()
